@@ -32,6 +32,8 @@
 //	                    runs prog when the first notification after the registration arrives (other notifications: returns)
 //	note:<k>            the peer sends the next notification of observation k (non-confirmable, increasing Observe value);
 //	                    the j-th notification of observation k is logged like a request with the number 9000+100k+j
+//	notem:<k>:<con|non>:+<d>   the same as note:<k>, confirmable / non-confirmable, with the message ID of the last message the
+//	                    connection sent under an ID of its own plus d (udp)
 //	pad:<n>             the next frame / datagram of the peer is padded to exactly n bytes (payload)
 //	empty:<i>:<ack|rst> (udp) the peer sends an empty message (code 0.00, no token) of that type whose message ID matches nothing
 //	                    outstanding; one that reaches the application's handler is logged like a request with the number 8000+i
@@ -524,6 +526,22 @@ func (w *world) apply(f []string, obsExch map[int]bool) {
 		mid := w.nextMid
 		w.nextMid++
 		w.push(w.build(message.NonConfirmable, codes.Content, nestTok(k), mid, func(x *pool.Message) { x.SetObserve(uint32(10 + j)) }))
+	case f[0] == "notem" && len(f) == 4:
+		w.tick()
+		k := atoi(f[1])
+		w.mu.Lock()
+		w.notes[k]++
+		j := w.notes[k]
+		w.mu.Unlock()
+		typ := message.NonConfirmable
+		if f[2] == "con" {
+			typ = message.Confirmable
+		}
+		mid := w.lastOwn + int32(atoi(strings.TrimPrefix(f[3], "+")))
+		if !w.udp {
+			mid = 0
+		}
+		w.push(w.build(typ, codes.Content, nestTok(k), mid, func(x *pool.Message) { x.SetObserve(uint32(10 + j)) }))
 	case f[0] == "pad" && len(f) == 2:
 		w.padNext = atoi(f[1])
 	case f[0] == "yield":
